@@ -5,6 +5,7 @@ import (
 	"encoding/hex"
 	"fmt"
 	"testing"
+	"time"
 
 	"pgregory.net/rapid"
 	"verifharness/gen"
@@ -163,6 +164,55 @@ func c13ByteEdit(t *rapid.T, b []byte, s *gen.Stream) ([]byte, string) {
 }
 
 func c13Differential(t *testing.T) {
+	// an extension with tens of thousands of members the statement does not know (pairwise distinct identifiers, a few
+	// hundred kilobytes): the answer - whatever the reference reader says - comes back in the time it takes to read it
+	gen.Direct(t, "many-unknown-members-in-bounded-time", func(t *testing.T) {
+		for i, c := range []struct {
+			n     int
+			where string
+		}{{4000, "top"}, {30000, "top"}, {30000, "tcb"}, {45000, "top-front"}} {
+			if !gen.ShardOwns(i) {
+				continue
+			}
+			s := gen.NewStream(gen.Seed()+uint64(i), "c13big")
+			v := &gen.SgxValues{}
+			s.Fill(v.PPID[:])
+			s.Fill(v.CpuSvn[:])
+			s.Fill(v.Fmspc[:])
+			s.Fill(v.PceID[:])
+			top := gen.SgxTree(v)
+			var extra []*gen.Node
+			for k := 0; k < c.n; k++ {
+				extra = append(extra, gen.Seq(gen.OID(1, 3, 6, 1, 4, 1, 99999, 1+k), &gen.Node{Tag: 0x05}))
+			}
+			switch c.where {
+			case "top":
+				top.Kids = append(top.Kids, extra...)
+			case "top-front":
+				top.Kids = append(extra, top.Kids...)
+			case "tcb":
+				tcb := top.Kids[indexOfTCB(top)].Kids[1]
+				tcb.Kids = append(tcb.Kids, extra...)
+			}
+			der := top.Encode()
+			gen.Eval()
+			var key, oracle, detail string
+			t0 := time.Now()
+			_, hung := gen.CallWatch(60*time.Second, func() error { key, oracle, detail, _ = c13DiffOracle(der, 5); return nil })
+			rp := map[string]any{"kind": "sgxext-many-members", "members": c.n, "where": c.where}
+			if hung {
+				gen.Fail(t, gen.Violation{Key: "no-answer:many-members:" + c.where, Oracle: "extraction returns the values or an error", Detail: fmt.Sprintf("an SGX extension of %d bytes with %d extra members of pairwise distinct unknown identifiers (%s): no answer within 60 s", len(der), c.n, c.where), Replay: rp})
+				return
+			}
+			if key != "" {
+				gen.Fail(t, gen.Violation{Key: key, Oracle: oracle, Detail: fmt.Sprintf("%d extra unknown members (%s): %s", c.n, c.where, detail), Replay: rp})
+				return
+			}
+			gen.NonTrivial("c13big", c.n, c.where)
+			gen.Class("many-unknown-members")
+			gen.Sample("many-members", map[string]any{"members": c.n, "where": c.where, "bytes": len(der), "seconds": time.Since(t0).Seconds()})
+		}
+	})
 	gen.Prop(t, "byte-level-differential", gen.N(30000, 3000000), func(t *rapid.T) {
 		s := gen.NewStream(rapid.Uint64().Draw(t, "content"), "c13d")
 		v := drawSgxValues(t, s)
